@@ -126,10 +126,10 @@ def run_deep(spec):
     sh = Shard(max_per_sig=2)
     for shape, f in DEEP_SHAPES.items():
         slow = shape in ("control_structures", "blocks")        # the tool is cubic in the depth of these
-        depths = (50, 200, 400) + ((1000,) if spec.get("tier") == "thorough" else ()) if slow else \
+        depths = (50, 150, 300) + ((400, 1000) if spec.get("tier") == "thorough" else ()) if slow else \
             (50, 200, 500, 900, 1000, 1500) + ((5000,) if spec.get("tier") == "thorough" else ())
         if shape == "pointer_declarator":
-            depths = (50, 200, 400, 1000, 1500)
+            depths = (50, 150, 300, 1000, 1500) + ((400, 900) if spec.get("tier") == "thorough" else ())
         for n in depths:
             for name in ("t.c", "t.h"):
                 judge(sh, name, f(n), {"nesting": n, "shape": shape}, "deep")
